@@ -19,7 +19,8 @@ Definition protection (strct field : string) : prot :=
   | "SrvReq", "status" => ByLock "SrvReq" true
   (* tag-group links and the list of waiting flushes: the connection's mutex *)
   | "SrvReq", "prev" | "SrvReq", "next" | "SrvReq", "flushreq" | "SrvReq", "flushnext" => ByLock "Conn" false
-  | "SrvFid", "refcount" => ByLock "SrvFid" true
+  | "SrvFid", "refcount" | "SrvFid", "creating" | "SrvFid", "linked" | "SrvFid", "dead" => ByLock "SrvFid" true
+  | "Conn", "closed" => ByLock "Conn" true
   | "Srv", "conns" => ByLock "Srv" true
   | "Clnt", "reqfirst" | "Clnt", "reqlast" | "Clnt", "err" => ByLock "Clnt" true
   | "Req", "prev" | "Req", "next" => ByLock "Clnt" false
